@@ -134,4 +134,150 @@ example : IsDayNumber (-262143, 1, 1) (-96465292) ∧ IsDayNumber (262142, 12, 3
 example : ¬ IsDayNumber (1900, 2, 29) 0 := fun h => by have := ((isDayNumber_iff _ _).1 h).1; revert this; decide
 example : ¬ IsDayNumber (2000, 2, 29) 11017 := fun h => by have := ((isDayNumber_iff _ _).1 h).2; revert this; decide
 
+/-! ## dates: the exactness theorems against the specification -/
+
+/-- what the model of `NaiveDate::from_str` returns: the day number (specification) of the date whose year, month
+and day fields stand in the string -/
+theorem parseNaiveDate_fields {s : List Char} {z : Int} (h : parseNaiveDate s = .ok z) :
+    ∃ (rest : List Char) (y : Int) (m d : Nat), parseDateItems s = some (rest, y, m, d) ∧ skipWs rest = [] ∧
+      (-262143 ≤ y ∧ y ≤ 262142) ∧ IsDayNumber (y, (m : Int), (d : Int)) z := by
+  unfold parseNaiveDate at h
+  split at h
+  · rename_i rest y m d hitems
+    split at h
+    · rename_i hrest
+      split at h
+      · rename_i z' hr
+        cases h
+        unfold resolveDate at hr
+        split at hr
+        · rename_i hc
+          cases hr
+          exact ⟨rest, y, m, d, hitems, hrest, ⟨hc.1, hc.2.1⟩, isDayNumber_daysFromCivil y m d hc.2.2⟩
+        · cases hr
+      · cases h
+    · cases h
+  · cases h
+
+/-- **date_exact_spec** (`date_exact` against the independent specification): a string the Date32 / Date64
+builder accepts consists of year, month and day fields of a date of the calendar, and the stored integer is
+that date's day number — in the sense of `IsDayNumber` (steps of one day from 1970-01-01) and, equally, of
+`dayNumber` (counting years, months, days) — times 86 400 000 for Date64.  No formula of the model occurs. -/
+theorem date_exact_spec (ty : DateTy) (s : List Char) (v : Int) (h : dateOfString ty s = .ok v) :
+    ∃ (rest : List Char) (y : Int) (m d : Nat) (n : Int), parseDateItems s = some (rest, y, m, d) ∧ skipWs rest = [] ∧
+      IsDayNumber (y, (m : Int), (d : Int)) n ∧ n = dayNumber (y, (m : Int), (d : Int)) ∧ v = n * ty.factor := by
+  unfold dateOfString at h
+  cases hp : parseNaiveDate s with
+  | error e => rw [hp] at h; cases h
+  | ok z =>
+    rw [hp] at h
+    simp only [bind, Except.bind] at h
+    obtain ⟨rest, y, m, d, hitems, hrest, _, hday⟩ := parseNaiveDate_fields hp
+    split at h
+    · split at h
+      · cases h
+        exact ⟨rest, y, m, d, z, hitems, hrest, hday, ((isDayNumber_iff_dayNumber _ _).1 hday).2, rfl⟩
+      · cases h
+    · cases h
+
+/-- the reader: the string produced for a stored value is the formatted date whose day number is `⌊v / factor⌋` -/
+theorem dateToString_spec (ty : DateTy) (v : Int) (s : List Char) (h : dateToString ty v = .ok s) :
+    ∃ dt : Date, IsDayNumber dt (v / ty.factor) ∧ s = formatDate dt.1 dt.2.1 dt.2.2 := by
+  unfold dateToString at h
+  simp only at h
+  split at h
+  · cases h
+    exact ⟨civilFromDays (v / ty.factor), isDayNumber_civilFromDays _, rfl⟩
+  · cases h
+
+/-- **date_roundtrip_spec** (`date_roundtrip` against the specification): every stored value the reader accepts
+is written as the date with day number `⌊v / factor⌋`, and the builder parses that string back to
+`⌊v / factor⌋ · factor` -/
+theorem date_roundtrip_spec (ty : DateTy) (v : Int) (h : inChronoDays (v / ty.factor) = true) :
+    ∃ (s : List Char) (dt : Date), dateToString ty v = .ok s ∧ IsDayNumber dt (v / ty.factor) ∧
+      s = formatDate dt.1 dt.2.1 dt.2.2 ∧ dateOfString ty s = .ok (v / ty.factor * ty.factor) := by
+  obtain ⟨s, h1, h2⟩ := date_roundtrip ty v h
+  obtain ⟨dt, h3, h4⟩ := dateToString_spec ty v s h1
+  exact ⟨s, dt, h1, h3, h4, h2⟩
+
+example : dateOfString .date32 "2000-02-29".toList = .ok 11016 ∧ dayNumber (2000, 2, 29) = 11016 := by decide
+example : dateOfString .date64 "-000001-12-31".toList = .ok (-719529 * 86400000) ∧ dayNumber (-1, 12, 31) = -719529 := by
+  decide +kernel
+example : (dateOfString .date32 "1900-02-29".toList).isErr = true := by decide
+
+/-! ## timestamps: seconds / nanoseconds since the epoch on top of the independent day number -/
+
+/-- the `instantNanos` of `timestamp_exact` is the specification's "nanoseconds since the epoch" of the instant's
+day number, second of day and nanosecond -/
+theorem instantNanos_is_spec (t : Instant) : instantNanos t = nanosSinceEpoch t.days t.secs t.nanos := rfl
+
+/-- the model of `NaiveDateTime::from_str`: the instant's day is the day number (specification) of the date
+fields of the string -/
+theorem parseNaiveDateTime_fields {s : List Char} {t : Instant} (h : parseNaiveDateTime s = .ok t) :
+    ∃ (rest : List Char) (y : Int) (m d : Nat), parseDateItems s = some (rest, y, m, d) ∧
+      IsDayNumber (y, (m : Int), (d : Int)) t.days := by
+  unfold parseNaiveDateTime at h
+  split at h
+  · cases h
+  · rename_i rest y m d hitems
+    split at h
+    · cases h
+    · split at h
+      · cases h
+      · split at h
+        · rename_i days secs nanos hr _
+          cases h
+          unfold resolveDate at hr
+          split at hr
+          · rename_i hc
+            cases hr
+            exact ⟨rest, y, m, d, hitems, isDayNumber_daysFromCivil y m d hc.2.2⟩
+          · cases hr
+        · cases h
+      · cases h
+
+/-- **timestamp_exact_spec**: a string written into a Timestamp column without time zone is stored as
+`⌊nanoseconds since the epoch / unit⌋` (floor toward −∞), where the nanoseconds since the epoch are
+`(n · 86400 + second of day) · 10⁹ + nanosecond` and `n` is the day number — in the sense of the independent
+specification — of the date fields of the string.  (Leap-second strings, `nanos ≥ 10⁹`, are the known finding.) -/
+theorem timestamp_exact_spec (u : TimeUnit) (s : List Char) (v : Int) (h : timestampOfString u false s = .ok v) :
+    ∃ (rest : List Char) (y : Int) (m d : Nat) (n : Int) (secs nanos : Nat),
+      parseDateItems s = some (rest, y, m, d) ∧ IsDayNumber (y, (m : Int), (d : Int)) n ∧
+      n = dayNumber (y, (m : Int), (d : Int)) ∧
+      (nanos < 1000000000 → v = nanosSinceEpoch n secs nanos / (u.nsPer : Int)) ∧ inI64 v = true := by
+  unfold timestampOfString at h
+  simp only [Bool.false_eq_true, if_false] at h
+  cases hp : parseNaiveDateTime s with
+  | error e => rw [hp] at h; cases h
+  | ok t =>
+    rw [hp] at h
+    simp only [bind, Except.bind] at h
+    obtain ⟨rest, y, m, d, hitems, hday⟩ := parseNaiveDateTime_fields hp
+    refine ⟨rest, y, m, d, t.days, t.secs, t.nanos, hitems, hday, ((isDayNumber_iff_dayNumber _ _).1 hday).2, ?_, ?_⟩
+    · intro hn
+      exact (timestamp_exact u t v hn h).1
+    · unfold instantToUnits at h
+      by_cases hin : inI64 (instantUnitsValue u t) = true
+      · rw [if_pos hin] at h; cases h; exact hin
+      · rw [if_neg hin] at h; cases u <;> cases h
+
+/-- the reader: a stored timestamp is written as the date with day number `n` and the time of day such that
+`(n · 86400 + second of day) · 10⁹ + nanosecond` is exactly `ts` units -/
+theorem timestampToString_spec (u : TimeUnit) (utc : Bool) (ts : Int) (s : List Char)
+    (h : timestampToString u utc ts = .ok s) :
+    ∃ (dt : Date) (n : Int) (secs nanos : Nat), IsDayNumber dt n ∧
+      nanosSinceEpoch n secs nanos = ts * (u.nsPer : Int) ∧ secs < 86400 ∧ nanos < 1000000000 ∧
+      s = formatDate dt.1 dt.2.1 dt.2.2 ++ ['T'] ++ formatTime secs nanos ++ (if utc then ['Z'] else []) := by
+  unfold timestampToString at h
+  cases ht : unitsToInstant u ts with
+  | none => rw [ht] at h; cases h
+  | some t =>
+    rw [ht] at h
+    cases h
+    obtain ⟨h1, h2, h3, _⟩ := unitsToInstant_spec u ts t ht
+    exact ⟨civilFromDays t.days, t.days, t.secs, t.nanos, isDayNumber_civilFromDays _, h1, h2, h3, rfl⟩
+
+example : timestampOfString .millisecond false "1969-12-31T23:59:59.999".toList = .ok (-1) ∧
+    nanosSinceEpoch (dayNumber (1969, 12, 31)) 86399 999000000 / 1000000 = -1 := by decide
+
 end SaModel.Props.C14
